@@ -242,6 +242,10 @@ mod explore {
                 // history-only input: reference and sequential conformance only
                 return;
             }
+            if is_big(inp) && inp.dim == 3 && !thorough {
+                // big 3D inputs: sequential / real-rayon conformance in both tiers, schedule exploration in the thorough tier
+                return;
+            }
             let n = inp.gens.len();
             let nregions = regions.len();
             if shard == 0 {
@@ -267,7 +271,7 @@ mod explore {
                 dfs(idx, inp, &reference, vec![], &allowed, st, u64::MAX, "<= 2 deviations anywhere");
                 bounds.push(format!("input {}: all schedules with <= 2 deviations from the default anywhere: {}", idx, st.executions - before));
             } else {
-                let dmax = if thorough || n <= 8 { 2 } else { 1 };
+                let dmax = if (thorough && !is_big(inp)) || n <= 8 { 2 } else { 1 };
                 let allowed = move |_c: &ChoicePoint, d: usize| d < dmax;
                 let before = st.executions;
                 let cap = st.executions + if thorough { 3_000_000 } else { 60_000 };
